@@ -686,7 +686,8 @@ class ExpressionValue(Value):
 
     def calculate_address_offset(self, statements):
         address_index = self.left.int if self.left.is_address() else self.right.int
-        additional_value = self.left.int if self.left.is_numeric() else self.right.int
+        numeric = self.left if self.left.is_numeric() else self.right
+        additional_value = -numeric.int if numeric.is_negative() else numeric.int
         address = statements[address_index].code_pkg.address.int
         # Addresses are 16-bit quantities, so results wrap around at 64K
         if self.operation == "+":
